@@ -11,8 +11,10 @@ import (
 	"errors"
 	"flag"
 	"fmt"
+	"os"
 	"runtime"
 	"strconv"
+	"strings"
 	"sync"
 	"sync/atomic"
 	"time"
@@ -231,11 +233,54 @@ func stressLoader(u string) (json.RawMessage, error) {
 	return nil, errors.New("no doc " + u)
 }
 
+// nbLoader serves the documents of the "no RelativeBase" operations: directories nb/d1, nb/d2 ... below
+// the working directory, each holding x.json (which refers to its neighbour y.json) and y.json.
+func nbLoader(u string) (json.RawMessage, error) {
+	wd, _ := os.Getwd()
+	rest := strings.TrimPrefix(u, "file://"+wd+"/nb/")
+	if rest == u || len(rest) < 4 {
+		return nil, errors.New("no doc " + u)
+	}
+	dir, file := rest[:strings.Index(rest, "/")], rest[strings.Index(rest, "/")+1:]
+	switch file {
+	case "x.json":
+		return json.RawMessage(`{"definitions":{"X":{"type":"object","properties":{"y":{"$ref":"y.json#/definitions/Y"}}}}}`), nil
+	case "y.json":
+		return json.RawMessage(`{"definitions":{"Y":{"title":"y-of-` + dir + `"}}}`), nil
+	}
+	return nil, errors.New("no doc " + u)
+}
+
+// one options value without a RelativeBase, shared (read-only) by every goroutine
+var sharedNoBase = &spec.ExpandOptions{PathLoader: nbLoader}
+
+var stressWarm bool
+
+// refRun: the sequential reference answers are being computed (every call then brings its own options value)
+var refRun bool
+
+func noBaseOp(dir string) func() (string, error) {
+	return func() (string, error) { // distinct documents, no cache, the shared options value
+		o := sharedNoBase
+		if refRun {
+			o = &spec.ExpandOptions{PathLoader: nbLoader}
+		}
+		var sw spec.Swagger
+		_ = json.Unmarshal([]byte(`{"swagger":"2.0","info":{"title":"t","version":"1"},"paths":{},"definitions":{"A":{"$ref":"nb/`+dir+`/x.json#/definitions/X"}}}`), &sw)
+		if err := spec.ExpandSpec(&sw, o); err != nil {
+			return "", err
+		}
+		b, _ := json.Marshal(sw.Definitions)
+		return string(b), nil
+	}
+}
+
 func stressOps(shared *spec.Swagger, sharedCache spec.ResolutionCache) []func() (string, error) {
 	opts := func() *spec.ExpandOptions {
 		return &spec.ExpandOptions{RelativeBase: "file:///w/r/root.json", PathLoader: stressLoader}
 	}
 	return []func() (string, error){
+		noBaseOp("d1"), noBaseOp("d2"), noBaseOp("d3"),
 		func() (string, error) { // ExpandSpec on an own copy, no cache
 			var sw spec.Swagger
 			_ = json.Unmarshal([]byte(stressRoot), &sw)
@@ -319,14 +364,34 @@ func runStress(id, g, rounds, procs int) *concObs {
 	cache := spec.VerifNewCache()
 	ops := stressOps(&shared, cache)
 	want := make([]string, len(ops))
-	for i, op := range ops {
-		w, err := op()
-		if err != nil {
+	reference := func() error {
+		refRun = true
+		defer func() { refRun = false }()
+		for i, op := range ops {
+			w, err := op()
+			if err != nil {
+				return err
+			}
+			want[i] = w
+		}
+		return nil
+	}
+	// the first case of a process starts COLD: the very first use of the package (its lazily initialised
+	// default cache included) is made by the concurrent goroutines; the reference answers are computed afterwards
+	cold := !stressWarm
+	stressWarm = true
+	if !cold {
+		if err := reference(); err != nil {
 			o.Outcome, o.Detail = "harness-error", "sequential reference failed: "+err.Error()
 			return o
 		}
-		want[i] = w
 	}
+	type answer struct {
+		op  int
+		got string
+		err error
+	}
+	answers := make([][]answer, g)
 	var wg sync.WaitGroup
 	var bad int64
 	var firstBad atomic.Value
@@ -339,10 +404,7 @@ func runStress(id, g, rounds, procs int) *concObs {
 			for r := 0; r < rounds; r++ {
 				i := (gi + r) % len(ops)
 				got, err := ops[i]()
-				if err != nil || got != want[i] {
-					atomic.AddInt64(&bad, 1)
-					firstBad.CompareAndSwap(nil, fmt.Sprintf("op %d: err=%v got=%.200s want=%.200s", i, err, got, want[i]))
-				}
+				answers[gi] = append(answers[gi], answer{i, got, err})
 			}
 		}(gi)
 	}
@@ -354,6 +416,20 @@ func runStress(id, g, rounds, procs int) *concObs {
 	case <-time.After(60 * time.Second):
 		o.Outcome, o.Detail = "deadlock", "goroutines did not finish within 60 s"
 		return o
+	}
+	if cold {
+		if err := reference(); err != nil {
+			o.Outcome, o.Detail = "harness-error", "sequential reference failed: "+err.Error()
+			return o
+		}
+	}
+	for _, as := range answers {
+		for _, a := range as {
+			if a.err != nil || a.got != want[a.op] {
+				atomic.AddInt64(&bad, 1)
+				firstBad.CompareAndSwap(nil, fmt.Sprintf("op %d: err=%v got=%.200s want=%.200s", a.op, a.err, a.got, want[a.op]))
+			}
+		}
 	}
 	if bad > 0 {
 		o.SeqOK = false
